@@ -514,13 +514,12 @@ Qed.
 Lemma take_frags_okW W b b1 frags :
   wb_okW W b -> take_trailing_fragments b = (b1, frags) -> wb_okW W b1 /\ vw frags = 0.
 Proof.
-  intros ((A & B & C & D & E) & HW & Ho) H. unfold take_trailing_fragments in H.
-  destruct (word_is_empty (wword b)) eqn:Ewe; injection H as <- <-.
-  - pose proof (word_is_empty_vw _ Ewe) as Hv. split; [|exact Hv].
-    split; [|prj; auto]. unfold InvP, word_width in *. prj.
-    split; [exact A|]. split; [exact B|]. split; [rewrite C, Hv; reflexivity|].
-    split; [exact D|constructor].
-  - split; [|reflexivity]. split; [|auto]. unfold InvP. auto.
+  intros ((A & B & C & D & E) & HW & Ho) H. rewrite ttf_eq in H. injection H as <- <-.
+  split; [|apply tfr_snd_vw].
+  split; [|prj; auto]. unfold InvP, word_width in *. prj.
+  split; [exact A|]. split; [exact B|]. split; [rewrite tfr_fst_vw; exact C|].
+  split; [exact D|]. unfold elems_have_width in *. rewrite (tfr_app (wword b)) in E.
+  apply Forall_app in E. apply E.
 Qed.
 
 Lemma wb_add_frag_okW W b n : wb_okW W b -> wb_okW W (wb_add_element b (Frag n)).
